@@ -65,7 +65,8 @@ def run(tier, seed):
     for t, (job, e) in enumerate(zip(emitjobs, emitted)):
         e.update({"t": t, "expects": job["expects"]})
         erecs.append(e)
-    verdicts = GC.judge_emits(chk, erecs)
+    verdicts = GC.judge_emits(chk, erecs, jobs=emitjobs, fallback=(GR.run_conn, lambda j: GC.split_patterns(
+        dict(j, prim=True, patterns=list(range(len(j["expects"])))))))
     for t, job in enumerate(emitjobs):
         v = verdicts[t]
         chk.note_case(f"emit/{job['id']}/{job['form']}", len(job["obj"]["graph"]["edges"]) >= 1)
